@@ -156,6 +156,8 @@ def execute(row, seed, version=None, share=False):
             n = rng.choice([n for n in names if pools[n]])
             merged.append(pools[n].pop(0))
         late_regs = []
+        decos = {}
+        reuse_deco = rng.random() < 0.6     # one decorator object (the value of c.listener(...)) applied to several functions
 
         def register(j):
             name, i, l, early, outgoing = regs[j]
@@ -178,7 +180,13 @@ def execute(row, seed, version=None, share=False):
             if j % 2:
                 c.register_packet_listener(cbk, *types, early=early, outgoing=outgoing)
             else:                       # the decorator spelling of the same registration
-                c.listener(*types, early=early, outgoing=outgoing)(cbk)
+                if reuse_deco:
+                    dk = (tuple(types), early, outgoing)
+                    if dk not in decos:
+                        decos[dk] = c.listener(*types, early=early, outgoing=outgoing)
+                    decos[dk](cbk)
+                else:
+                    c.listener(*types, early=early, outgoing=outgoing)(cbk)
         for j in merged:
             if regs[j][2].get('late'):
                 late_regs.append(j)         # registered later, while packets of that class have already been dispatched
